@@ -30,6 +30,7 @@ def run(cx):
     cls, fields = pe.ir_classes()
     crl = im.func("_collect_required_libraries")
     rule_names(cx, em, pm, im, crl, fields)
+    rule_declared(cx)
     from . import c07
     c07.rule_decl_siblings(cx, "C14-DECL-SIBLINGS")
     # the last leg of "requested": the library list reaches platformio.ini entry by entry
@@ -66,54 +67,63 @@ def rule_agree(cx, rid, libs_only=False):
                     setup.append(cls["LCDClear"](name=f"l{i}"))
                 loop = [servo(i) for i in s_loop] + [cls["ServoWrite"](name=f"s{i}", angle="H_a") for i in s_setup + s_loop]
                 label = f"servos setup={list(s_setup)} loop={list(s_loop)}; lcds={list(lcds)}{' +led' if with_noise else ''}"
-                res = pe.emit_program(setup=setup, loop=loop)
-                if res.raised:
-                    raise AnalysisError(f"emit() raises for {label}")
-                text = res.text
-                incs = re.findall(r"^#include <([\w.]+)>", text, re.M)
-                headers = [h for h in incs if h not in ("Arduino.h",)]
-                classes = set()
-                for line in text.split("\n"):
-                    m = re.match(r"^(Servo|LiquidCrystal_I2C|LiquidCrystal) \w+", line)
-                    if m:
-                        classes.add(m.group(1))
-                prog = cls["Program"](setup_body=setup, loop_body=loop, target_port=None, global_decls=[], helpers=set(), functions=[], ultrasonic_measurements=set())
-                try:
-                    out = dl.Interp(im, extra_env=pe.ir_env()).call(crl, [prog])
-                except dl.Unsupported as e:
-                    raise AnalysisError(f"_collect_required_libraries left the evaluable subset: {e}")
-                if out.kind != "return" or not isinstance(out.value, list):
-                    r.fail("collect/returns-list", (im, crl), f"{label}: _collect_required_libraries -> {out!r}")
-                    continue
-                libs = out.value
-                want = set()
-                if s_setup or s_loop:
-                    want.add("Servo")
-                if "parallel" in lcds:
-                    want.add("LiquidCrystal")
-                if "i2c" in lcds or "i2c@0" in lcds:
-                    want.add("LiquidCrystal_I2C")
-                n += 1
-                hdr_libs = [h[:-2] for h in headers if h != "Wire.h"]
-                ok = True
-                if set(libs) != want or len(libs) != len(set(libs)):
-                    ok = False
-                    r.fail("libs/requested=needed", (im, crl), f"{label}: requested {libs}, devices need {sorted(want)}")
-                if libs_only:
+                variants_ = [(label, setup, loop)]
+                if s_loop:
+                    # the statement parser prepends the per-pass housekeeping nodes (button poll, LCD animation tick) to the
+                    # loop body: a device declared at the top of `while True:` then follows them
+                    variants_.append((label + " +button-poll-first", [cls["ButtonDecl"](name="btn", pin=7, on_click="cb")] + setup, [cls["ButtonPoll"](name="btn")] + loop))
+                    if lcds:
+                        variants_.append((label + " +lcd-tick-first", setup + [cls["LCDAnimate"](name="l0", animation="scroll", row=0, text="H_t_text", speed_ms=200, loop=True)], [cls["LCDTick"](name="l0")] + loop))
+                for label, setup, loop in variants_:
+                    fns_cb = [cls["FunctionDef"](name="cb", params=[], body=[cls["Sleep"](ms=1)], return_type="void")] if "button-poll" in label else []
+                    res = pe.emit_program(setup=setup, loop=loop, functions=fns_cb)
+                    if res.raised:
+                        raise AnalysisError(f"emit() raises for {label}")
+                    text = res.text
+                    incs = re.findall(r"^#include <([\w.]+)>", text, re.M)
+                    headers = [h for h in incs if h not in ("Arduino.h",)]
+                    classes = set()
+                    for line in text.split("\n"):
+                        m = re.match(r"^(Servo|LiquidCrystal_I2C|LiquidCrystal) \w+", line)
+                        if m:
+                            classes.add(m.group(1))
+                    prog = cls["Program"](setup_body=setup, loop_body=loop, target_port=None, global_decls=[], helpers=set(), functions=fns_cb, ultrasonic_measurements=set())
+                    try:
+                        out = dl.Interp(im, extra_env=pe.ir_env()).call(crl, [prog])
+                    except dl.Unsupported as e:
+                        raise AnalysisError(f"_collect_required_libraries left the evaluable subset: {e}")
+                    if out.kind != "return" or not isinstance(out.value, list):
+                        r.fail("collect/returns-list", (im, crl), f"{label}: _collect_required_libraries -> {out!r}")
+                        continue
+                    libs = out.value
+                    want = set()
+                    if s_setup or s_loop:
+                        want.add("Servo")
+                    if "parallel" in lcds:
+                        want.add("LiquidCrystal")
+                    if "i2c" in lcds or "i2c@0" in lcds:
+                        want.add("LiquidCrystal_I2C")
+                    n += 1
+                    hdr_libs = [h[:-2] for h in headers if h != "Wire.h"]
+                    ok = True
+                    if set(libs) != want or len(libs) != len(set(libs)):
+                        ok = False
+                        r.fail("libs/requested=needed", (im, crl), f"{label}: requested {libs}, devices need {sorted(want)}")
+                    if libs_only:
+                        if ok:
+                            r.ok(label)
+                        continue
+                    if set(hdr_libs) != want or len(hdr_libs) != len(set(hdr_libs)):
+                        ok = False
+                        r.fail("includes/included=needed-once", (em, em.func("emit")), f"{label}: included {headers}, devices need {sorted(want)} (each exactly once)")
+                    if classes != want:
+                        ok = False
+                        r.fail("classes/instantiated=needed", (em, em.func("emit")), f"{label}: instantiated {sorted(classes)}, devices need {sorted(want)}")
+                    if ("Wire.h" in headers) != ("LiquidCrystal_I2C" in want) or headers.count("Wire.h") > 1:
+                        ok = False
+                        r.fail("includes/Wire-with-I2C", (em, em.func("emit")), f"{label}: Wire.h included {headers.count('Wire.h')} times")
                     if ok:
                         r.ok(label)
-                    continue
-                if set(hdr_libs) != want or len(hdr_libs) != len(set(hdr_libs)):
-                    ok = False
-                    r.fail("includes/included=needed-once", (em, em.func("emit")), f"{label}: included {headers}, devices need {sorted(want)} (each exactly once)")
-                if classes != want:
-                    ok = False
-                    r.fail("classes/instantiated=needed", (em, em.func("emit")), f"{label}: instantiated {sorted(classes)}, devices need {sorted(want)}")
-                if ("Wire.h" in headers) != ("LiquidCrystal_I2C" in want) or headers.count("Wire.h") > 1:
-                    ok = False
-                    r.fail("includes/Wire-with-I2C", (em, em.func("emit")), f"{label}: Wire.h included {headers.count('Wire.h')} times")
-                if ok:
-                    r.ok(label)
     # a device declared inside a branch or an exception handler still needs its library: the collector walks every node kind
     for holder in ("if-branch", "elif-branch", "else", "try-body", "except-handler", "while-body", "function-body"):
         sv = cls["ServoDecl"](name="s0", pin=9)
@@ -142,6 +152,50 @@ def rule_agree(cx, rid, libs_only=False):
             raise AnalysisError(f"_collect_required_libraries left the evaluable subset: {e}")
         r.check(out.kind == "return" and isinstance(out.value, list) and "Servo" in out.value, f"libs/nested-declaration[{holder}]", (im, crl), f"a Servo declared in the {holder} is not seen by _collect_required_libraries -> {out!r}: platformio.ini would lack the library the sketch instantiates")
     return n
+
+
+def rule_declared(cx, rid="C14-DECLARED"):
+    """from the script text: every accepted way of writing a library-backed declaration (pins positional or by keyword, in
+    every split; geometry given or not; I2C by i2c_addr) is parsed - by partial evaluation of parse() - to a declaration of
+    the interface the script wrote, and the libraries collected for that program are the ones that interface needs"""
+    im = mod(INIT)
+    crl = im.func("_collect_required_libraries")
+    r = cx.rule(rid, "a script that wires an LCD with the six parallel pins (any positional/keyword split) gets a parallel LCDDecl and LiquidCrystal; one that gives i2c_addr gets an I2C LCDDecl and LiquidCrystal_I2C; a Servo declaration in any accepted form gets Servo", floor=20, exhaustive=True)
+    pins = [("rs", 12), ("en", 11), ("d4", 5), ("d5", 4), ("d6", 3), ("d7", 2)]
+    shapes = []
+    for k in range(0, 7):
+        args = [str(v) for _n, v in pins[:k]] + [f"{n}={v}" for n, v in pins[k:]]
+        for extra in ([], ["cols=20", "rows=4"], ["backlight_pin=10"]):
+            shapes.append(("LCD", ", ".join(args + extra), "parallel", "LiquidCrystal"))
+    for sh in ("i2c_addr=0x27", "cols=20, rows=4, i2c_addr=0x27", "i2c_addr=39, cols=20", "i2c_addr=0x3F, rows=4"):
+        shapes.append(("LCD", sh, "i2c", "LiquidCrystal_I2C"))
+    for sh in ("9", "pin=9", "9, min_angle=10, max_angle=170", "pin=9, min_pulse_us=500, max_pulse_us=2500", ""):
+        shapes.append(("Servo", sh, None, "Servo"))
+    for cname, sh, iface, lib in shapes:
+        modname = "Displays" if cname == "LCD" else "Actuators"
+        use = "dev.clear()" if cname == "LCD" else "dev.write(90)"
+        src = f"from Reduino.{modname} import {cname}\ndev = {cname}({sh})\n{use}\n"
+        try:
+            _it, out = pe.parse_source(src)
+        except dl.Unsupported as e:
+            raise AnalysisError(f"parse() left the evaluable subset on `{cname}({sh})`: {e}")
+        if out.kind != "return":
+            r.ok(f"{cname}({sh}): rejected ({out.value})")
+            continue
+        prog = out.value
+        decls = [n_ for n_ in list(prog.setup_body) + list(prog.loop_body) if type(n_).__name__ == f"{cname}Decl"]
+        key = f"{cname}({'positional x' + str(sum(1 for a_ in sh.split(', ') if a_ and '=' not in a_)) if cname == 'LCD' and iface == 'parallel' else sh or 'defaults'})"
+        if len(decls) != 1:
+            r.fail(f"declared/{key}-one-declaration", (mod(PARSER), mod(PARSER).func("_parse_simple_lines")), f"`dev = {cname}({sh})` yields {len(decls)} {cname}Decl nodes")
+            continue
+        if iface is not None:
+            r.check(decls[0].interface == iface, f"declared/{key}-interface", (mod(PARSER), mod(PARSER).func("_parse_simple_lines")), f"`dev = LCD({sh})` is parsed as an {decls[0].interface!r} display; the script wires a {iface} one: the wrong library is requested, included and instantiated")
+        try:
+            libs = dl.Interp(im, extra_env=pe.ir_env()).call(crl, [prog])
+        except dl.Unsupported as e:
+            raise AnalysisError(f"_collect_required_libraries left the evaluable subset: {e}")
+        r.check(libs.kind == "return" and list(libs.value) == [lib], f"declared/{key}-library", (im, crl), f"`dev = {cname}({sh})` requests {libs!r}; the declaration needs [{lib!r}]")
+    return r
 
 
 def rule_names(cx, em, pm, im, crl, fields):
